@@ -1,4 +1,13 @@
-import PhysisModel.Spec.Excel
-import PhysisModel.Model.Exd
+import PhysisModel.Proofs.ExcelRecord
 namespace Physis.C05
+open Physis Physis.Spec.Excel Physis.Exh Physis.Exd Physis.Proofs.Excel
+
+theorem c05_exh_roundtrip (s : Schema) (h : WFschema s) :
+    Exh.fromExisting (encodeExh s) = some (toExh s) := exh_roundtrip s h
+
+theorem c05_filename (name : Bytes) (l : Lang) (p : Page) :
+    calculateFilename name (toModelLang l) (toModelPage p) = pageFileName name l p := by
+  cases l <;> simp [calculateFilename, pageFileName, toModelLang, toModelPage, fmtNat, decimal,
+    Nat.repr, getLanguageCode, Lang.suffix]
+
 end Physis.C05
